@@ -362,15 +362,29 @@ func (g *FullGen) atom(d int) *Node {
 		case 10:
 			// key-pinning atoms so that every scan kind occurs
 			l := Str(g.pick(append([]string{"k", "a"}, g.KeyLits...)))
-			switch r.Intn(4) {
-			case 0:
-				return Bin("^=", Key(), l)
-			case 1:
-				return Bin("=", Key(), l)
-			case 2:
-				return Bin(">=", Key(), l)
+			// the key itself, or a select field that is just the key under a name
+			kx := Key()
+			if r.Chance(1+g.RefBias, 5) {
+				for _, a := range g.aliases {
+					if a.Def != nil && a.Def.K == KKey {
+						kx = a
+						break
+					}
+				}
 			}
-			return Bin("<", Key(), l)
+			switch r.Intn(6) {
+			case 0:
+				return Bin("^=", kx, l)
+			case 1:
+				return Bin("=", kx, l)
+			case 2:
+				return Bin(">=", kx, l)
+			case 3:
+				return Bin("^=", l, kx) // the literal starts with the key: pins nothing
+			case 4:
+				return Bin("=", l, kx)
+			}
+			return Bin("<", kx, l)
 		}
 	}
 }
